@@ -79,6 +79,10 @@ func boolExprValue(e string, asg map[string]string) (bool, bool, []string) {
 		v, k, u := boolExprValue(e[1:], asg)
 		return !v, k, u
 	}
+	if i := strings.Index(e, " != "); i > 0 && !strings.HasSuffix(e, " != nil") {
+		v, k, u := boolExprValue(e[:i]+" == "+e[i+4:], asg)
+		return !v, k, u
+	}
 	if strings.HasPrefix(e, "(") && strings.HasSuffix(e, ")") && balanced(e[1:len(e)-1]) {
 		return boolExprValue(e[1:len(e)-1], asg)
 	}
